@@ -7,7 +7,11 @@ Registers t0..t3 hold transformed parameters.  The model runs at `Float`
 (bit-exact tie); the verdicts are the Float shadows of the theorems of
 lean/BppProofs/Props/C11.lean evaluated on the *implementation's* answers:
 round trip (`*_roundtrip`), `back_in_domain`, monotonicity (`strict_mono`) and
-finite differences against `d1`, `d2` (`d1_is_derivative`, `d2_is_derivative`).
+finite differences against `d1`, `d2` (`d1_is_derivative`, `d2_is_derivative`); and of
+lean/BppProofs/Props/C11Wrapper.lean for the wrapper ops (`w.new`, `w.newsub` = second constructor,
+`w.set`, `w.touch` = `f()` on current values, `w.d1`, `w.d2`, `w.fd`, `w.fdx`):
+`wrap_preserves_values`, `wrap_nudge`, `set_never_raises`, `set_sync`, `all_histories_accepted`
+(`wrap_near`), `wrapper_back_in_domain`, `chain_rule_1/2/2_cross`.
 -/
 namespace Bpp.Drive.C11
 open Bpp Bpp.Proto Bpp.Transform Bpp.Reparam
@@ -26,13 +30,26 @@ def fmax (a b : F) : F := if a < b then b else a
 def fabs (a : F) : F := Float.abs a
 def finite (x : F) : Bool := !(x.isNaN || x.isInf)
 def eps : F := Float.ofScientific 1 true 0 / 4503599627370496.0   -- 2^-52
+/-- absolute floor of the finite-difference allowances: quantities in the subnormal range carry no
+relative precision (found by the directed search: coefficient 5e-324) -/
+def absFloor : F := 1e-280
+
+/-- the wrapped function as the wrapper sees it: the coefficients of the polynomial, which of the
+function's parameters each wrapper coordinate stands for (`sel`, all of them in order for the first
+constructor, the given sub-list in the given order for the second one, h:53-59), and the function's
+initial values (`base`): the parameters outside `sel` keep them for ever. -/
+structure Ctx where
+  cs : List (Coef Float)
+  sel : List Nat
+  base : List Float
 
 structure St where
   t : Array (Option (TP F)) := Array.replicate 4 none
-  /-- the wrapper and the coefficients of the wrapped polynomial -/
-  w : Option (W F × List (Coef F)) := none
-  /-- were all initial values more than `tiny` away from their open bounds (hypothesis of
-  `wrap_preserves_values` / `set_sync`)? -/
+  /-- the wrapper and the wrapped polynomial -/
+  w : Option (W F × Ctx) := none
+  /-- are the hypotheses of `wrap_preserves_values` / `all_histories_accepted` other than "the value
+  is accepted by its constraint" satisfied (`quantOk`: bounds within the property's quantifier,
+  finite intervals roomy)? -/
   wf : Bool := true
 
 /-! ### executable predicates (Float shadows of the theorems) -/
@@ -83,11 +100,11 @@ ulps of it (cancellation in `tanh + 1` is amplified by the width of the interval
 def fdOk (gm g0 gp am a0 ap bm b0 bp h s mag : F) (second : Bool) : String :=
   if !([gm, g0, gp, am, a0, ap, bm, b0, bp].all finite) then "-" else
   let q1 := (gp - gm) / (2.0 * h)
-  let tol1 := 1e-3 * (fabs am + fabs a0 + fabs ap) + 16.0 * eps * fmax mag (fmax (fabs gm) (fabs gp)) / h
+  let tol1 := 1e-3 * (fabs am + fabs a0 + fabs ap) + 16.0 * eps * fmax mag (fmax (fabs gm) (fabs gp)) / h + absFloor
   if !(fabs (q1 - a0) ≤ tol1) then "FAIL:d1_is_derivative" else
   let q2 := (ap - am) / (2.0 * h)
   let tol2 := 1e-3 * ((fabs bm + fabs b0 + fabs bp) + (fabs am + fabs a0 + fabs ap) / fabs s)
-    + 16.0 * eps * fmax (fabs am) (fabs ap) / h
+    + 16.0 * eps * fmax (fabs am) (fabs ap) / h + absFloor
   if second && !(fabs (q2 - b0) ≤ tol2) then "FAIL:d2_is_derivative" else "ok"
 
 /-! ### the machine -/
@@ -156,30 +173,53 @@ def polyMag (cs : List (Coef F)) (p : List F) : F :=
   let m := zs.foldl (fun acc (k, x) => acc + fabs (k.c * x) + fabs (k.q * (x * x))) 1.0
   (zs.zip (p.drop 1)).foldl (fun acc ((k, x), x') => acc + fabs (k.e * (x * x'))) m
 
-/-- within `tiny` of a closed bound: `init_` moves the value by `tiny` -/
-def nudged (sh : Shape F) (v : F) : Bool :=
-  match sh with
-  | .cc a b => fabs (v - a) < tiny || fabs (v - b) < tiny
-  | .co a _ => fabs (v - a) < tiny
-  | .oc _ b => fabs (v - b) < tiny
-  | .ge a => fabs (v - a) < tiny
-  | .le b => fabs (v - b) < tiny
-  | _ => false
+namespace Ctx
 
-/-- the property quantifies over values at least `1e-9` away from a bound (hypothesis `Margin` of
-`all_histories_margin`; `margin_admits` shows it implies the hypotheses of
-`wrap_preserves_values` because `TINY() < 1e-9`).  Values closer to an *open* bound are outside
-the quantifier: `init_` moves open bounds inwards by `TINY()`.  (0.99e-9: the distance of a
-generated value from its bound is `1e-9` up to rounding.) -/
-def marginF : F := 0.99e-9
-def nearOpen (sh : Shape F) (v : F) : Bool :=
+/-- the wrapper coordinate standing for the function's parameter `i` -/
+def slotOf (c : Ctx) (i : Nat) : Option Nat := c.sel.findIdx? (· == i)
+
+/-- the function's full point, given the values of the wrapper's coordinates -/
+def expand (c : Ctx) (p : List F) : List F :=
+  (List.range c.base.length).map (fun j =>
+    match c.slotOf j with
+    | some k => p[k]?.getD nan
+    | none => c.base[j]?.getD nan)
+
+/-- the values of the wrapper's coordinates inside a full point of the function -/
+def restrict (c : Ctx) (full : List F) : List F := c.sel.map (fun i => full[i]?.getD nan)
+
+/-- the wrapped function and its derivatives in the wrapper's coordinates -/
+def f (c : Ctx) (p : List F) : F := Poly.f c.cs (c.expand p)
+def df (c : Ctx) (p : List F) (k : Nat) : F :=
+  match c.sel[k]? with | some i => polyDf c.cs (c.expand p) i | none => nan
+def d2f (c : Ctx) (p : List F) (k k' : Nat) : F :=
+  match c.sel[k]?, c.sel[k']? with | some i, some j => polyD2f c.cs (c.expand p) i j | _, _ => nan
+def mag (c : Ctx) (p : List F) : F := polyMag c.cs (c.expand p)
+
+/-- an update aligned with the function's parameters, re-aligned with the wrapper's coordinates;
+`none` when it names a parameter the wrapper does not have (ParameterNotFoundException) -/
+def toW (c : Ctx) (updF : List (Option F)) : Option (List (Option F)) :=
+  if (List.range updF.length).any (fun j => (updF[j]?.join).isSome && (c.slotOf j).isNone) then none
+  else some (c.sel.map (fun i => updF[i]?.join))
+
+end Ctx
+
+/-- `init_` moves the value (closer than `tiny` to a closed bound or to the corrected open bound):
+the model's own test `Reparam.isNudged`, whose negation over the reals is the hypothesis `NotNudged`
+of `wrap_nudge` / `all_histories_accepted` (`isNudged_false_iff`) -/
+def nudged (sh : Shape F) (v : F) : Bool := Reparam.isNudged tiny sh v
+
+/-- the property's quantifier on constraints: bounds within [-1e3,1e3] (beyond ~1e4 an ulp of the
+bound exceeds `TINY()` and the corrected bounds collapse -- rounding, not modelled) and finite
+intervals wider than `4 TINY()` (hypothesis `Roomy` of `Admits`).  Every *value* accepted by such a
+constraint is inside the theorems' hypotheses: nothing is excluded next to a bound. -/
+def quantOk (sh : Shape F) : Bool :=
+  let okb := fun (x : F) => fabs x ≤ 1000.0
   match sh with
-  | .oo a b => v < a + marginF || v > b - marginF
-  | .co _ b => v > b - marginF
-  | .oc a _ => v < a + marginF
-  | .gt a => v < a + marginF
-  | .lt b => v > b - marginF
-  | _ => false
+  | .cc a b | .oo a b | .co a b | .oc a b => okb a && okb b && b - a > 4.0 * tiny
+  | .gt a | .ge a => okb a
+  | .lt b | .le b => okb b
+  | .none => true
 
 def shapeMag (sh : Shape F) (v : F) : F :=
   let m := fmax 1.0 (fabs v)
@@ -196,44 +236,62 @@ def showW (w : W F) : String :=
 
 def splitSemi (t : List String) : List (List String) := splitTok ";" t
 
-/-- verdict of `w.new` (`wrap_preserves_values`) -/
-def newWVerdict (impl : Option (List String)) (ps : List (Shape F × F)) : String :=
+/-- verdict of `w.new` (`wrap_preserves_values`, `wrap_nudge`): for *every* value accepted by its
+constraint wrapping succeeds, the function's parameters are untouched and each transformed parameter
+back-transforms to `corrected tiny shape value` (to rounding), which is the initial value up to
+`2 tiny` when `init_` moves it, exactly the initial value otherwise, and which the constraint accepts -/
+def newWVerdict (impl : Option (List String)) (c : Ctx) (all : List (Shape F × F)) : String :=
+  -- `ps`: the parameters the wrapper reparametrises, in its order
+  let ps := c.sel.filterMap (fun i => all[i]?)
+  if !(ps.all (fun (shp, _) => quantOk shp)) then "-" else
   match impl with
   | none => "-"
-  | some ("exc:constraint" :: _) =>
-    -- wrapping raised although every value is admissible
-    if ps.all (fun (shp, v) => !nearOpen shp v) then "FAIL:wrap_preserves_values" else "-"
+  | some ("exc:constraint" :: _) => "FAIL:wrap_preserves_values"
   | some t =>
     match splitSemi t with
     | [_, os, fs] =>
       match fls? os, fls? fs with
       | some os, some fs =>
-        if os.length != ps.length || fs.length != ps.length then "FAIL:parse"
-        else if !((ps.zip fs).all (fun ((_, v), f) => sh v == sh f)) then "FAIL:wrap_preserves_values"
-        else if !((ps.zip os).all (fun ((shp, v), o) => nearOpen shp v ||
-            fabs (o - v) ≤ two44 * shapeMag shp v + (if nudged shp v then 2.0 * tiny else 0.0))) then "FAIL:wrap_preserves_values"
+        if os.length != ps.length || fs.length != all.length then "FAIL:parse"
+        else if !((all.zip fs).all (fun ((_, v), f) => sh v == sh f)) then "FAIL:wrap_preserves_values"
+        else if !((ps.zip os).all (fun ((shp, v), o) =>
+            fabs (o - Reparam.corrected tiny shp v) ≤ two44 * shapeMag shp v)) then "FAIL:wrap_preserves_values"
+        else if !((ps.zip os).all (fun ((shp, v), o) =>
+            fabs (o - v) ≤ two44 * shapeMag shp v + (if nudged shp v then 2.0 * tiny else 0.0))) then "FAIL:wrap_nudge"
+        else if !((ps.zip os).all (fun ((shp, _), o) => shp.isCorrect o)) then "FAIL:back_in_domain"
         else "ok"
       | _, _ => "FAIL:parse"
     | _ => "FAIL:parse"
 
 /-- verdict of `w.set`: the value is the function at its own point (`wrap_f_eq`), that point
 satisfies the constraints (`back_in_domain`), named coordinates are the back-transformed ones
-(`wrap_sync`), the others are untouched -/
-def setVerdict (impl : Option (List String)) (cs : List (Coef F)) (before after : W F) (upd : List (Option F)) (wf : Bool) : String :=
+(`set_sync`; when no named coordinate changed nothing is recomputed and a value moved by `init_` may
+still be up to `2 tiny` off), every coordinate is within `2 tiny` of the back-transformed one
+(`all_histories_accepted`), the coordinates that are not named are untouched -/
+def setVerdict (impl : Option (List String)) (c : Ctx) (before after : W F) (upd : List (Option F)) (wf : Bool) : String :=
   match impl with
   | none => "-"
-  | some ("exc:constraint" :: _) => "FAIL:set_never_raises"
+  | some ("exc:constraint" :: _) => if wf then "FAIL:set_never_raises" else "-"
   | some t =>
     match splitSemi t with
-    | [[f], ps, _] =>
-      match fl? f, fls? ps with
-      | some f, some ps =>
-        if ps.length != after.length then "FAIL:parse"
-        else if sh f != sh (Poly.f cs ps) then "FAIL:wrap_f_eq"
+    | [[f], full, _] =>
+      match fl? f, fls? full with
+      | some f, some full =>
+        let ch := (List.zipWith changed before upd).any id
+        let slack : F := if ch then 0.0 else 2.0 * tiny
+        -- the implementation's values of the coordinates the wrapper reparametrises
+        let ps := c.restrict full
+        if full.length != c.base.length || ps.length != after.length then "FAIL:parse"
+        else if sh f != sh (Poly.f c.cs full) then "FAIL:wrap_f_eq"
         else if !((after.zip ps).all (fun (s, p) => s.shape.isCorrect p)) then "FAIL:back_in_domain"
         else if wf && !(((after.zip ps).zip upd).all (fun ((s, p), u) => u.isNone ||
-            fabs (p - s.tp.getOriginal pi) ≤ two44 * shapeMag s.shape p)) then "FAIL:wrap_sync"
+            fabs (p - s.tp.getOriginal pi) ≤ two44 * shapeMag s.shape p + slack)) then "FAIL:wrap_sync"
+        else if wf && !((after.zip ps).all (fun (s, p) =>
+            fabs (p - s.tp.getOriginal pi) ≤ two44 * shapeMag s.shape p + 2.0 * tiny)) then "FAIL:wrap_near"
         else if !(((before.zip ps).zip upd).all (fun ((s, p), u) => u.isSome || sh p == sh s.fn)) then "FAIL:wrap_untouched"
+        -- the function's parameters the wrapper was not given never move
+        else if !(((List.range full.length).zip (full.zip c.base)).all (fun (j, (p, b)) =>
+            (c.slotOf j).isSome || sh p == sh b)) then "FAIL:wrap_untouched"
         else "ok"
       | _, _ => "FAIL:parse"
     | _ => "FAIL:parse"
@@ -250,46 +308,86 @@ def probe3 (w : W F) (i : Nat) (x h : F) : Except Exc (W F × W F × W F) := do
   let w0 ← Reparam.set pi wp (single n i x)
   pure (wm, wp, w0)
 
-def wD1 (cs : List (Coef F)) (w : W F) (i : Nat) : F := (Reparam.d1 pi (polyDf cs) w i).getD nan
-def wD2 (cs : List (Coef F)) (w : W F) (i : Nat) : F := (Reparam.d2 pi (polyDf cs) (polyD2f cs) w i).getD nan
-def wD2x (cs : List (Coef F)) (w : W F) (i j : Nat) : F := (Reparam.d2x pi (polyD2f cs) w i j).getD nan
+def wD1 (c : Ctx) (w : W F) (i : Nat) : F := (Reparam.d1 pi c.df w i).getD nan
+def wD2 (c : Ctx) (w : W F) (i : Nat) : F := (Reparam.d2 pi c.df c.d2f w i).getD nan
+def wD2x (c : Ctx) (w : W F) (i j : Nat) : F := (Reparam.d2x pi c.d2f w i j).getD nan
 
 /-- finite-difference shadow of `chain_rule_1` / `chain_rule_2` for coordinate `i` -/
-def wfdOk (cs : List (Coef F)) (w0 : W F) (i : Nat) (h : F) (vals : List F) : String :=
+def wfdOk (c : Ctx) (w0 : W F) (i : Nat) (h : F) (vals : List F) : String :=
   match vals, w0[i]? with
   | [fm, f0, fp, am, a0, ap, b0], some s =>
     if !(vals.all finite) || !inScope s.tp || !(h > 0.0) then "-" else
     let p := fnVals w0
-    let dfi := fabs (polyDf cs p i)
-    let d2fi := fabs (polyD2f cs p i i)
+    let dfi := fabs (c.df p i)
+    let d2fi := fabs (c.d2f p i i)
     let t1 := fabs (s.tp.d1 pi)
     let sc := fabs (tpScale s.tp)
     let magI := 2.0 * magnitude s.tp (s.tp.getOriginal pi)
     let q1 := (fp - fm) / (2.0 * h)
     let tol1 := 1e-3 * (fabs am + fabs a0 + fabs ap) + 4.0 * h * h / (sc * sc) * d2fi * t1 * t1 * sc
-      + 32.0 * eps * (polyMag cs p + fmax (fabs fm) (fmax (fabs f0) (fabs fp)) + magI * dfi) / h
+      + 32.0 * eps * (c.mag p + fmax (fabs fm) (fmax (fabs f0) (fabs fp)) + magI * dfi) / h + absFloor
     if !(fabs (q1 - a0) ≤ tol1) then "FAIL:chain_rule_1" else
     let second := match s.tp with
       | .r t => !(t.x - h ≤ 0.0 && 0.0 ≤ t.x + h)
       | _ => true
     let q2 := (ap - am) / (2.0 * h)
     let tol2 := 1e-3 * (fabs b0 + d2fi * t1 * t1 + 2.0 * dfi * t1 / sc)
-      + 32.0 * eps * (fmax (fabs am) (fabs ap) + magI * d2fi * t1 + magI * dfi / sc) / h
+      + 32.0 * eps * (fmax (fabs am) (fabs ap) + magI * d2fi * t1 + magI * dfi / sc) / h + absFloor
     if second && !(fabs (q2 - b0) ≤ tol2) then "FAIL:chain_rule_2" else "ok"
   | _, _ => "FAIL:parse"
 
-def wfdxOk (cs : List (Coef F)) (w0 : W F) (i j : Nat) (h : F) (vals : List F) : String :=
+def wfdxOk (c : Ctx) (w0 : W F) (i j : Nat) (h : F) (vals : List F) : String :=
   match vals, w0[i]?, w0[j]? with
   | [am, ap, c0], some si, some sj =>
     if !(vals.all finite) || !inScope si.tp || !inScope sj.tp || !(h > 0.0) then "-" else
     let p := fnVals w0
-    let fij := fabs (polyD2f cs p i j)
+    let fij := fabs (c.d2f p i j)
     let ti := fabs (si.tp.d1 pi)
     let magJ := 2.0 * magnitude sj.tp (sj.tp.getOriginal pi)
     let q := (ap - am) / (2.0 * h)
-    let tol := 1e-3 * fabs c0 + 32.0 * eps * (fmax (fabs am) (fabs ap) + magJ * fij * ti) / h
+    let tol := 1e-3 * fabs c0 + 32.0 * eps * (fmax (fabs am) (fabs ap) + magJ * fij * ti) / h + absFloor
     if !(fabs (q - c0) ≤ tol) then "FAIL:chain_rule_2_cross" else "ok"
   | _, _, _ => "FAIL:parse"
+
+/-- `sel` of `w.newsub`: comma separated function indices (`f` = a foreign parameter, which the
+constructor ignores, h:48-50); `none` when an index is out of range or repeated -/
+def parseSel (n : Nat) (s : String) : Option (List Nat) :=
+  let toks := (s.splitOn ",").filter (· != "f")
+  match toks.mapM nat? with
+  | some l => if l.all (· < n) && l.eraseDups.length == l.length then some l else none
+  | none => none
+
+/-- both constructors: the function is built, then the wrapper over the parameters `sel` -/
+def doNew (s : St) (impl : Option (List String)) (l : List ((Shape F × F) × Coef F)) (sel : List Nat) :
+    St × String × String :=
+  let all := l.map (·.1)
+  let c : Ctx := { cs := l.map (·.2), sel := sel, base := all.map (·.2) }
+  -- the function's own `Parameter(name, value, constraint)` raises on an incorrect value
+  if !(all.all (fun (shp, v) => shp.isCorrect v)) then ({ s with w := none }, "exc:constraint", "-") else
+  let ps := sel.filterMap (fun i => all[i]?)
+  let ok := ps.all (fun (shp, _) => quantOk shp)
+  match Reparam.init pi tiny ps with
+  | .ok w =>
+    let out := shs (w.map (·.tp.x)) ++ " ; " ++ shs (w.map (fun s => s.tp.getOriginal pi)) ++ " ; " ++ shs c.base
+    ({ s with w := some (w, c), wf := ok }, out, newWVerdict impl c all)
+  | .error e =>
+    -- `wrap_preserves_values`: over the reals wrapping never raises on accepted values
+    ({ s with w := none }, excStr e,
+      match impl with | some _ => if ok then "FAIL:wrap_preserves_values" else "-" | none => "-")
+
+/-- `f(parameters)` with the update `updF` aligned with the function's parameters -/
+def doSet (s : St) (impl : Option (List String)) (w : W F) (c : Ctx) (updF : List (Option F)) :
+    St × String × String :=
+  match c.toW updF with
+  | none => ({ s with w := none }, "exc:notfound", "-")
+  | some upd =>
+    match Reparam.set pi w upd with
+    | .ok w' =>
+      let out := sh (Reparam.value c.f w') ++ " ; " ++ shs (c.expand (fnVals w')) ++ " ; " ++ shs (w'.map (·.fp))
+      ({ s with w := some (w', c) }, out, setVerdict impl c w w' upd s.wf)
+    | .error e =>
+      -- `set_never_raises`: over the reals a well-formed wrapper never raises
+      ({ s with w := none }, excStr e, match impl with | some _ => "FAIL:set_never_raises" | none => "-")
 
 def step (s : St) (op : List String) (impl : Option (List String)) : St × String × String :=
   match op with
@@ -419,78 +517,96 @@ def step (s : St) (op : List String) (impl : Option (List String)) : St × Strin
   | "w.new" :: n :: rest =>
     match nat? n, parseParams rest with
     | some n, some l =>
+      if l.length != n then (s, "bad-op", "-") else doNew s impl l (List.range n)
+    | _, _ => (s, "bad-op", "-")
+  | "w.newsub" :: n :: sel :: rest =>
+    match nat? n, parseParams rest with
+    | some n, some l =>
       if l.length != n then (s, "bad-op", "-") else
-      let ps := l.map (·.1)
-      let cs := l.map (·.2)
-      -- the function's own `Parameter(name, value, constraint)` raises on an incorrect value
-      if !(ps.all (fun (shp, v) => shp.isCorrect v)) then ({ s with w := none }, "exc:constraint", "-") else
-      match Reparam.init pi tiny ps with
-      | .ok w => ({ s with w := some (w, cs), wf := ps.all (fun (shp, v) => !nearOpen shp v) }, showW w, newWVerdict impl ps)
-      | .error e => ({ s with w := none }, excStr e, "-")
+      match parseSel n sel with
+      | some sel => doNew s impl l sel
+      | none => (s, "bad-op", "-")
     | _, _ => (s, "bad-op", "-")
   | "w.set" :: m :: rest =>
     match s.w, nat? m with
-    | some (w, cs), some m =>
+    | some (w, c), some m =>
       if rest.length != 2 * m then (s, "bad-op", "-") else
-      match parseUpd w.length rest with
+      match parseUpd c.base.length rest with
       | none => (s, "bad-op", "-")
-      | some upd =>
-        match Reparam.set pi w upd with
-        | .ok w' =>
-          let out := sh (Reparam.value (Poly.f cs) w') ++ " ; " ++ shs (fnVals w') ++ " ; " ++ shs (w'.map (·.fp))
-          ({ s with w := some (w', cs) }, out, setVerdict impl cs w w' upd s.wf)
-        | .error e =>
-          -- `set_never_raises`: over the reals a well-formed wrapper never raises
-          ({ s with w := none }, excStr e, match impl with | some _ => "FAIL:set_never_raises" | none => "-")
+      | some updF => doSet s impl w c updF
     | _, _ => (s, "bad-op", "-")
+  | "w.touch" :: m :: rest =>
+    -- `f()` with the current values of the named coordinates: nothing changes in the wrapper
+    match s.w, nat? m, rest.mapM nat? with
+    | some (w, c), some m, some idx =>
+      let incr := (idx.zip (idx.drop 1)).all (fun (a, b) => a < b)
+      if idx.length != m || !incr || !(idx.all (· < c.base.length)) then (s, "bad-op", "-") else
+      let updF := (List.range c.base.length).map (fun j =>
+        if idx.contains j then
+          (match c.slotOf j with | some k => (w[k]?).map (·.tp.x) | none => some 0.0)
+        else none)
+      doSet s impl w c updF
+    | _, _, _ => (s, "bad-op", "-")
   | ["w.d1", i] =>
     match s.w, nat? i with
-    | some (w, cs), some i =>
-      if i ≥ w.length then (s, "bad-op", "-") else (s, sh (wD1 cs w i), "-")
+    | some (w, c), some i =>
+      if i ≥ c.base.length then (s, "bad-op", "-") else
+      match c.slotOf i with
+      | some k => (s, sh (wD1 c w k), "-")
+      | none => ({ s with w := none }, "exc:notfound", "-")
     | _, _ => (s, "bad-op", "-")
   | ["w.d2", i, j] =>
     match s.w, nat? i, nat? j with
-    | some (w, cs), some i, some j =>
-      if i ≥ w.length || j ≥ w.length then (s, "bad-op", "-")
-      else (s, sh (if i == j then wD2 cs w i else wD2x cs w i j), "-")
+    | some (w, c), some i, some j =>
+      if i ≥ c.base.length || j ≥ c.base.length then (s, "bad-op", "-") else
+      match c.slotOf i, c.slotOf j with
+      | some k, some k' => (s, sh (if k == k' then wD2 c w k else wD2x c w k k'), "-")
+      | _, _ => ({ s with w := none }, "exc:notfound", "-")
     | _, _, _ => (s, "bad-op", "-")
   | ["w.fd", i, h] =>
     match s.w, nat? i, fl? h with
-    | some (w, cs), some i, some h =>
+    | some (w, c), some i, some h =>
+      if i ≥ c.base.length then (s, "bad-op", "-") else
+      match c.slotOf i with
+      | none => ({ s with w := none }, "exc:notfound", "-")
+      | some i =>
       match w[i]? with
       | none => (s, "bad-op", "-")
       | some si =>
         match probe3 w i si.tp.x h with
         | .error e => ({ s with w := none }, excStr e, match impl with | some _ => "FAIL:set_never_raises" | none => "-")
         | .ok (wm, wp, w0) =>
-          let vals := [Reparam.value (Poly.f cs) wm, Reparam.value (Poly.f cs) w0, Reparam.value (Poly.f cs) wp,
-            wD1 cs wm i, wD1 cs w0 i, wD1 cs wp i, wD2 cs w0 i]
+          let vals := [Reparam.value c.f wm, Reparam.value c.f w0, Reparam.value c.f wp,
+            wD1 c wm i, wD1 c w0 i, wD1 c wp i, wD2 c w0 i]
           let verdict := match impl with
             | some ("exc:constraint" :: _) => "FAIL:set_never_raises"
             | some t => match fls? t with
-              | some iv => wfdOk cs w0 i h iv
+              | some iv => wfdOk c w0 i h iv
               | none => "FAIL:parse"
             | none => "-"
-          ({ s with w := some (w0, cs) }, shs vals, verdict)
+          ({ s with w := some (w0, c) }, shs vals, verdict)
     | _, _, _ => (s, "bad-op", "-")
   | ["w.fdx", i, j, h] =>
     match s.w, nat? i, nat? j, fl? h with
-    | some (w, cs), some i, some j, some h =>
-      match w[i]?, w[j]? with
+    | some (w, c), some i, some j, some h =>
+      if i ≥ c.base.length || j ≥ c.base.length || i == j then (s, "bad-op", "-") else
+      match c.slotOf i, c.slotOf j with
+      | some i, some j =>
+      (match w[i]?, w[j]? with
       | some _, some sj =>
-        if i == j then (s, "bad-op", "-") else
         match probe3 w j sj.tp.x h with
         | .error e => ({ s with w := none }, excStr e, match impl with | some _ => "FAIL:set_never_raises" | none => "-")
         | .ok (wm, wp, w0) =>
-          let vals := [wD1 cs wm i, wD1 cs wp i, wD2x cs w0 i j]
+          let vals := [wD1 c wm i, wD1 c wp i, wD2x c w0 i j]
           let verdict := match impl with
             | some ("exc:constraint" :: _) => "FAIL:set_never_raises"
             | some t => match fls? t with
-              | some iv => wfdxOk cs w0 i j h iv
+              | some iv => wfdxOk c w0 i j h iv
               | none => "FAIL:parse"
             | none => "-"
-          ({ s with w := some (w0, cs) }, shs vals, verdict)
-      | _, _ => (s, "bad-op", "-")
+          ({ s with w := some (w0, c) }, shs vals, verdict)
+      | _, _ => (s, "bad-op", "-"))
+      | _, _ => ({ s with w := none }, "exc:notfound", "-")
     | _, _, _, _ => (s, "bad-op", "-")
   | _ => (s, "bad-op", "-")
 
